@@ -2,6 +2,7 @@
 (util/happinessutil.py: servers_of_happiness, shares_by_server, merge_servers, _flow_network_for,
 _reindex; immutable/happiness_upload.py: bfs, augmenting_path_for, residual_network)."""
 import itertools
+import os
 
 ID = "C08"
 LEAN_PROPS = "Tahoe.Props.C08"
@@ -235,7 +236,21 @@ def run(ctx):
 
     # ---- A. composite: servers_of_happiness, value + monitor (+ exact trace on a subset)
     cases = []     # (sharemap-as-items, label)
+    corpus_only = os.environ.get("VERIF_CORPUS_ONLY") == "1"
+    # FIXED CORPUS (runs first, independent of VERIF_SEED): one minimal input per known mechanism
     corpus = [
+        # seeded C08-c (value remembered by a multiplicity-forgetting layout key): same set of server groups, different
+        # number of shares per group, asked in both orders within one process
+        {0: {0, 1}, 1: {0, 1}},      # 2
+        {0: {0, 1}},                 # 1 (a stale remembered 2 is caught here)
+        {0: {2, 3}},                 # 1
+        {0: {2, 3}, 1: {2, 3}},      # 2 (a stale remembered 1 is caught here)
+        # seeded C08-a (flow update `= 1` does not cancel a back edge): server 0 holds shares 1,2,3, servers 1 and 2 only
+        # a duplicate of share 1, server 0 numbered first: maximum matching 2 (over-count gives 3)
+        {1: {0, 1, 2}, 2: {0}, 3: {0}},
+        # seeded C08-b (residual network drops unused edges between matched vertices): the augmenting path must displace
+        # two matched servers in a chain; this insertion order needs it: maximum matching 3 (early stop gives 2)
+        {2: {3}, 1: {3, 2}, 0: {1, 2}},
         # the docstring example of servers_of_happiness (servers 1..5, shares 1,2,3,4,6)
         {1: {1}, 2: {1, 5}, 3: {1, 3}, 4: {1, 4}, 6: {2}},
         # layouts from test_happiness-style hand cases
@@ -252,7 +267,7 @@ def run(ctx):
     for d in corpus:
         cases.append(dict(d))
 
-    if not ctx.replay:
+    if not ctx.replay and not corpus_only:
         max_exh = 4 if thorough else 3
         for nserv in range(1, max_exh + 1):
             for nshare in range(1, max_exh + 1):
@@ -322,7 +337,9 @@ def run(ctx):
     if trace_impl:
         ctx.sample({"trace_line": trace_lines[min(5, len(trace_lines) - 1)][:200], "impl": trace_impl[min(5, len(trace_impl) - 1)][:400]})
 
-    if ctx.replay:
+    if ctx.replay or corpus_only:
+        if corpus_only:
+            ctx.note("VERIF_CORPUS_ONLY=1: only the fixed corpus (%d inputs) was run" % len(corpus))
         return
 
     # ---- B. order independence and byte-string ids (property level)
